@@ -815,7 +815,11 @@ impl<'e> Sim<'e> {
 pub fn run_generated(env: &Env, prop: &str, thorough: bool, verif_seed: u64, run_index: u64, run_seed: u64) -> (Trace, RunOut) {
     let mut rng = Rng::new(run_seed);
     let prof = profile_for(prop, thorough);
-    let (cfg, mut gs, steps) = gen_config(&mut rng, &prof, env.overhead);
+    let (mut cfg, mut gs, steps) = gen_config(&mut rng, &prof, env.overhead);
+    let steps = if cfg!(miri) { steps.min(30) } else { steps };
+    if cfg!(miri) {
+        cfg.prefill = cfg.prefill.min(40);
+    }
     let mut sim = Sim::new(env, cfg.clone(), 0);
     let mut ops: Vec<Op> = Vec::with_capacity(steps + 8);
     // initial observation happens inside the first step; the generator needs one before that
